@@ -12,7 +12,8 @@ from common import WORK
 
 LEVEL = "exploration"
 CONFIGS = [None, {"default_container": "Box", "default_context": "Arc"}, {"function_prefix": "api"}, {"default_container": "Mut", "default_context": "NoContext"},
-           {"default_container": "Box", "default_context": "NoContext", "function_prefix": "x"}, {"default_container": "Ref", "default_context": "Arc"}]
+           {"default_container": "Box", "default_context": "NoContext", "function_prefix": "x"}, {"default_container": "Ref", "default_context": "Arc"},
+           {"default_container": "Box"}, {"default_context": "Arc"}, {"default_container": "Mut", "default_context": "Arc", "function_prefix": "p"}, {"default_context": "NoContext"}]
 
 
 def one_model(chk, binary, name, model, cfg, stats):
@@ -43,6 +44,58 @@ def one_model(chk, binary, name, model, cfg, stats):
     stats["models"] = stats.get("models", 0) + 1
 
 
+def one_model_cpp(chk, binary, name, model, em, cfg, stats):
+    """C++ mode: the same oracle over member-function wrappers, one driver per root type"""
+    w = os.path.join(WORK, "bgcpp", chk.tier, name)
+    r = bgrun.run_tool_cpp(binary, w, em.text, config=cfg)
+    tag = dict(model=name, mode="C++", config=cfg, roots=[(x["kind"], x["name"], x["inst"], x["ctx"]) for x in em.roots])
+    if r["rc"] != 0 or r["text"] is None:
+        chk.violation("C17:tool-failed", "cglue-bindgen failed on C++ header %s: %s" % (name, r["err"][-600:]), tag)
+        return
+    comps = (("g++", "-std=c++11"),) if chk.tier == "quick" else (("g++", "-std=c++11"), ("clang++", "-std=c++11"), ("g++", "-std=c++17"))
+    res = bgrun.drive_cpp(w, em, model, r["out_path"], r["text"], compilers=comps)
+    seen = set()
+    failed_roots = set()
+    for ri, cls, msg in res["failures"]:
+        x = em.roots[ri]
+        failed_roots.add(ri)
+        sig = "C17:cpp:%s:%s" % (cls, "NoContext" if not x["ctx"] else "Arc") if cls.startswith("compile:context-member") else "C17:cpp:%s" % cls
+        if sig not in seen:
+            seen.add(sig)
+            chk.violation(sig, "C++ model %s (config %s): wrappers of %s %s (%s, %s) cannot be used: %s" % (name, cfg, x["kind"], x["name"], x["inst"], x["ctx"] or "NoContext", msg), tag)
+    ok_roots = set(range(len(em.roots))) - failed_roots
+    viol, st = bgrun.judge(em, model, res, only_roots=ok_roots)
+    for sig, d in viol:
+        sig = sig.replace("C17:", "C17:cpp:", 1)
+        if sig not in seen:
+            seen.add(sig)
+            chk.violation(sig, "C++ model %s (config %s): %s" % (name, cfg, d), tag)
+    for k, v in st.items():
+        stats["cpp_" + k] = stats.get("cpp_" + k, 0) + v
+    stats["cpp_models"] = stats.get("cpp_models", 0) + 1
+    stats["cpp_roots_driven"] = stats.get("cpp_roots_driven", 0) + len(ok_roots)
+
+
+def calibrate_cpp(chk, binary):
+    m, em = bgrun.emit_cpp.plugin_api_cpp()
+    w = os.path.join(WORK, "bgcpp", chk.tier, "plugin-api")
+    r = bgrun.run_tool_cpp(binary, w, em.text, config={"default_container": "Box", "default_context": "Arc"})
+    if r["text"]:
+        ref = open(os.path.join(common.REPO, "examples", "pregen-headers", "bindings.hpp")).read()
+
+        def norm(s):
+            s = re.sub(r"/\*.*?\*/", "", s, flags=re.S)
+            s = re.sub(r"//[^\n]*", "", s)
+            s = s.replace("inline auto ", "inline AUTO ").replace("constexpr auto ", "constexpr AUTO ")
+            return [l.strip() for l in s.splitlines() if l.strip()]
+        a, b = norm(r["text"]), norm(ref)
+        only_ref = [l for l in b if l not in set(a)]
+        chk.part("emulator-calibration-cpp", lines_ours=len(a), lines_shipped_header=len(b), shipped_lines_not_reproduced=len(only_ref),
+                 explanation="lines of examples/pregen-headers/bindings.hpp that (emulated cbindgen C++ output -> current tool) does not reproduce: the shipped file was produced by a variant of the "
+                             "tool that spells return types `auto` and keeps MaybeUninit as an alias; everything else (templates, specialisations, wrappers, alias chain) is reproduced line for line")
+    return m, em
+
+
 def run(chk, replay=None):
     q = chk.tier == "quick"
     binary = bgrun.tool()
@@ -69,20 +122,35 @@ def run(chk, replay=None):
     for i in range(n):
         seed = chk.seed * 100000 + i
         jobs.append(lambda i=i, seed=seed: one_model(chk, binary, "m%d" % seed, emit.random_model(seed, fnptr=(i % 5 == 0)), CONFIGS[i % len(CONFIGS)], stats))
+    # ---- C++ mode
+    pm_cpp, em_cpp = calibrate_cpp(chk, binary)
+    jobs.append(lambda: one_model_cpp(chk, binary, "plugin-api", pm_cpp, em_cpp, {"default_container": "Box", "default_context": "Arc"}, stats))
+    ncpp = 16 if q else 200
+    for i in range(ncpp):
+        seed = chk.seed * 100000 + 50000 + i
+
+        def job(i=i, seed=seed):
+            m, em, _, _ = bgrun.emit_cpp.random_cpp(seed, fnptr=(i % 5 == 0))
+            one_model_cpp(chk, binary, "c%d" % seed, m, em, CONFIGS[i % len(CONFIGS)], stats)
+        jobs.append(job)
     rtrun.run_many(chk, jobs)
     chk.part("wrappers", **stats)
     m0 = emit.random_model(chk.seed * 100000 + 1)
     chk.sample(dict(what="API model", traits={t.name: [(m.name, m.recv, [a[0] for a in m.args], m.ret if isinstance(m.ret, str) else list(m.ret)) for m in t.methods] for t in m0.traits.values()},
                     groups=m0.groups, roots=m0.roots))
-    chk.coverage["evaluations"] = stats.get("calls", 0)
-    chk.coverage["distinct_nontrivial"] = stats.get("slots_covered", 0)
+    chk.coverage["evaluations"] = stats.get("calls", 0) + stats.get("cpp_calls", 0)
+    chk.coverage["distinct_nontrivial"] = stats.get("slots_covered", 0) + stats.get("cpp_slots_covered", 0)
     chk.coverage["rule"] = ("API models: the plugin-api of the repository (calibration) + seeded models of 1-4 traits, 0-2 groups, 1-4 methods with 0-4 arguments of scalar/struct/slice/pointer/"
                             "callback/function-pointer types, by-ref/by-mut/consuming receivers, returns incl. struct, pointer and the container itself (Clone), Box/Mut/Ref roots with and "
                             "without Arc context, the same method name in two traits, x 6 tool configurations. For every root type mock vtables log (root, trait, slot, container address, "
-                            "argument check, sequence); every wrapper of the processed header is called with sentinel arguments under ASan+UBSan. evaluations = wrapper calls; distinct = "
-                            "vtable entries reached")
+                            "argument check, sequence); every wrapper of the processed header is called with sentinel arguments under ASan+UBSan. The same models are also emitted in "
+                            "cbindgen's C++ shape (templates, `using` chains, opaque zero-sized items); there each root type gets its own C++ driver (g++ -std=c++11; thorough adds clang++ and "
+                            "c++17) that fills template vtables with mocks, calls every member-function wrapper, consumes through `std::move(obj).f()` and lets destructors run. "
+                            "evaluations = wrapper calls; distinct = vtable entries reached")
     chk.floor("wrapper calls", stats.get("calls", 0), 200)
     chk.floor("models", stats.get("models", 0), 20)
     chk.floor("vtable entries reached", stats.get("slots_covered", 0), 100)
+    chk.floor("C++ wrapper calls", stats.get("cpp_calls", 0), 60)
+    chk.floor("C++ root types driven", stats.get("cpp_roots_driven", 0), 10)
     chk.assumptions += ["headers come from an emulator of cbindgen's output shape (cbindgen is not installed); its fidelity is argued by calibration against the shipped pre-generated header",
-                        "C mode only; the C++ generator is exercised for compilation/reproducibility in C18 only when a C++ emulation exists (see DESIGN.md)"]
+                        "C++ mode: same caveat; the C++ emulation reproduces the shipped bindings.hpp except for the `auto` spelling of return types"]
